@@ -50,8 +50,10 @@ Definition listed_re (t : rtable) : re :=
 (* ---- characters ------------------------------------------------------------------------------ *)
 Definition is_digit (c : N) : bool := N.leb 48 c && N.leb c 57.
 Definition digit_val (c : N) : Z := (Z.of_N c - 48)%Z.
-Definition is_space (c : N) : bool :=   (* str.strip(): ASCII whitespace (others outside the modelled alphabet) *)
-  N.eqb c 32 || (N.leb 9 c && N.leb c 13) || (N.leb 28 c && N.leb c 31) || N.eqb c 133 || N.eqb c 160.
+Definition is_space (c : N) : bool :=   (* str.isspace() per character, as str.strip() uses it *)
+  N.eqb c 32 || (N.leb 9 c && N.leb c 13) || (N.leb 28 c && N.leb c 31) || N.eqb c 133 || N.eqb c 160
+  || N.eqb c 5760 || (N.leb 8192 c && N.leb c 8202) || N.eqb c 8232 || N.eqb c 8233 || N.eqb c 8239
+  || N.eqb c 8287 || N.eqb c 12288.
 Fixpoint lstrip (s : str) : str := match s with c :: s' => if is_space c then lstrip s' else s | [] => [] end.
 Definition strip (s : str) : str := rev (lstrip (rev (lstrip s))).
 Definition lower (c : N) : N := if N.leb 65 c && N.leb c 90 then (c + 32)%N else c.
